@@ -24,12 +24,14 @@ Proof. intros H x. unfold upd. destruct (x =? c); [reflexivity|apply H]. Qed.
 Lemma orc_step_sound st0 s o x :
   Inv st0 s -> R s o ->
   o_res (run_op s (s_label x)) = s_res x ->
+  (match s_label x with LGet _ _ _ => o_observed (run_op s (s_label x)) | _ => None end) = s_got x ->
   rec_bytes (store (step s (s_label x))) = s_stored x ->
   exists o', orc_step o x = Some o' /\ R (step s (s_label x)) o'.
 Proof.
-  intros I [Rs Ro] Hres Hst.
-  unfold orc_step. rewrite <- Hst, <- Hres, <- Rs. clear Hst Hres.
-  destruct (s_label x) as [c e t|c h b e t|c h b e t]; unfold step; cbn [run_op lab_cid store observed].
+  intros I [Rs Ro] Hres Hgot Hst.
+  unfold orc_step. rewrite <- Hst, <- Hres, <- Rs, <- Hgot. clear Hst Hres Hgot.
+  destruct (s_label x) as [c e t|c h b e t|c h b e t|c]; unfold step; cbn [run_op lab_cid store observed];
+    [| | |cbn [o_store o_observed]; rewrite obeq_refl; eexists; (split; [reflexivity|]); split; cbn [o_st o_obs]; [reflexivity|exact Ro]].
   - (* Get *)
     unfold do_get. destruct e.
     + destruct (store s) as [r|] eqn:S; cbn [rec_bytes option_map].
@@ -80,9 +82,11 @@ Lemma orc_run_sound st0 xs : forall s o,
   Inv st0 s -> R s o -> c14_run s xs = true -> orc_run o xs = true.
 Proof.
   induction xs as [|x tl IH]; intros s o I Rr C; [reflexivity|].
-  cbn [c14_run] in C. repeat (apply andb_true_iff in C as [C ?]).
-  apply res_eqb_eq in C. match goal with H : opt_eqb beqb _ _ = true |- _ => apply obeq_eq in H; rename H into Hst end.
-  destruct (orc_step_sound st0 s o x I Rr C Hst) as [o' [E R']].
+  cbn [c14_run] in C.
+  apply andb_true_iff in C as [C Ctl]. apply andb_true_iff in C as [C _]. apply andb_true_iff in C as [C Hst].
+  apply andb_true_iff in C as [C Hgot]. apply andb_true_iff in C as [C _].
+  apply res_eqb_eq in C. apply obeq_eq in Hst. apply obeq_eq in Hgot.
+  destruct (orc_step_sound st0 s o x I Rr C Hgot Hst) as [o' [E R']].
   cbn [orc_run]. rewrite E. eapply IH; [apply inv_step, I|exact R'|assumption].
 Qed.
 
